@@ -44,9 +44,11 @@ def configs(tier):
         cfgs.append({"name": f"{'+'.join(shapes)}-V{V}-conv{conv}-search{search}" + (f"-extras{max_extras}" if extras else ""), "shapes": shapes, "V": V,
                      "conv": conv, "search": search, "kind": "step", "extras": extras, "max_extras": max_extras})
 
-    def tpl(name, conv=0, search=1, second=False, node_order=None):
-        cfgs.append({"name": f"template-{name}-conv{conv}-search{search}" + ("-second-rewire" if second else "") + (f"-nodes-{node_order}" if node_order else ""),
-                     "template": name, "conv": conv, "search": search, "kind": "template", "second": second, "node_order": node_order})
+    def tpl(name, conv=0, search=1, second=False, node_order=None, label_offset=0):
+        cfgs.append({"name": f"template-{name}-conv{conv}-search{search}" + ("-second-rewire" if second else "") + (f"-nodes-{node_order}" if node_order else "")
+                     + (f"-labels+{label_offset}" if label_offset else ""),
+                     "template": name, "conv": conv, "search": search, "kind": "template", "second": second, "node_order": node_order,
+                     "label_offset": label_offset})
 
     add(["edge", "edge"], 4)
     add(["edge", "edge"], 3, search=2)
@@ -57,6 +59,8 @@ def configs(tier):
     tpl("chain2", second=True)  # rewire() called twice on one object: the second result is checked
     tpl("chain2", node_order="desc")  # vertices inserted in descending order
     tpl("star2", node_order="desc")
+    tpl("chain2", label_offset=1000)  # vertex labels 1000.. (not small-int objects)
+    tpl("star2", search=2, label_offset=1000)
     cfgs.append({"name": "defaults", "kind": "defaults", "shapes": ["tri", "edge"], "V": 4})
     if not q:
         add(["edge", "edge", "edge"], 4)
